@@ -444,6 +444,35 @@ func otherFinding(d vrt.Disc, c *vrt.Ctx) bool {
 	return false
 }
 
+// executeMust runs the Must form of the operation; a panic is its way to report an error.
+func executeMust(cs Case, data any) (root any, panicked any) {
+	x := cs.Path.Build()
+	val := wx.Dec(cs.Val)
+	n := 0
+	mod := modifier(cs.Mod, &n)
+	root = data
+	defer func() { panicked = recover() }()
+	switch cs.Op {
+	case "set":
+		x.MustSet(data, val)
+	case "setone":
+		x.MustSetOne(data, val)
+	case "del":
+		x.MustDel(data)
+	case "delone":
+		x.MustDelOne(data)
+	case "remove":
+		root = x.MustRemove(data)
+	case "removeone":
+		root = x.MustRemoveOne(data)
+	case "modify":
+		root = x.MustModify(data, mod)
+	case "modifyone":
+		root = x.MustModifyOne(data, mod)
+	}
+	return
+}
+
 // notExecuted: the case falls under the C13-K4 exclusion (see runWith).
 func notExecuted(cs Case) bool {
 	op, _ := baseOp(cs.Op)
@@ -561,6 +590,11 @@ func runWith(cs Case, c *vrt.Ctx, before any, res *jpx.Result, extraTag string, 
 	}
 	if o.err != nil {
 		c.Class("error-returned")
+		if reading == 0 && !(one && !res.Ordered) {
+			if _, mpanic := executeMust(cs, canon.Copy(before)); mpanic == nil {
+				c.Fail("must-form-differs", "jp.Must"+cs.Op, fmt.Sprintf("%s: the error form returned %v, the Must form did not panic", desc, o.err), tags...)
+			}
+		}
 		// an error may leave created empties behind, never a changed bystander
 		if op == "set" || op == "del" {
 			if msg := frame(before, after, sel, false); msg != "" {
@@ -658,6 +692,23 @@ func runWith(cs Case, c *vrt.Ctx, before any, res *jpx.Result, extraTag string, 
 	}
 	if cs.User && reading == 0 {
 		runUser(cs, c, before, res, o, afterCanon, desc, tags)
+	}
+	if reading == 0 && !(one && !res.Ordered) {
+		// the Must forms are the same operations that panic instead of returning the error
+		md := canon.Copy(before)
+		mroot, mpanic := executeMust(cs, md)
+		ma := mroot
+		if op == "set" || op == "del" {
+			ma = md
+		}
+		switch {
+		case (mpanic != nil) != (o.err != nil):
+			c.Fail("must-form-differs", "jp.Must"+cs.Op, fmt.Sprintf("%s: the error form returned %v, the Must form panicked with %v", desc, o.err, mpanic), tags...)
+		case mpanic == nil:
+			if m := canon.String(ma, canon.Value); m != afterCanon {
+				c.Fail("must-form-differs", "jp.Must"+cs.Op, fmt.Sprintf("%s: error form %s Must form %s", desc, afterCanon, m), tags...)
+			}
+		}
 	}
 	// same outcome on gen data
 	if cs.Gen {
